@@ -200,12 +200,13 @@ class Exec:
             self.case = int(ws[1]); self.opno = 0; self.reset()
             self.stats["cases"] += 1
             self.emit(line, "case " + " ".join(ws[1:])); return
+        if ws[0] == "flavour":            # key representation: a `cfg` line, which the model answers with `ok`
+            ws = ["cfg", "flavour", ws[1]]; line = " ".join(ws)
         if ws[0] == "cfg":
+            if len(ws) == 3 and ws[1] == "flavour":
+                self.enc, self.dec = FLAVOURS[ws[2]]
+                self.stats["flavours"][ws[2]] = self.stats["flavours"].get(ws[2], 0) + 1
             self.emit(line, "ok"); return
-        if ws[0] == "flavour":            # harness-only line: not sent to the model
-            self.enc, self.dec = FLAVOURS[ws[1]]
-            self.stats["flavours"][ws[1]] = self.stats["flavours"].get(ws[1], 0) + 1
-            return
         assert ws[0] == "P", line
         self.opno += 1
         self.stats["ops"] += 1
